@@ -553,8 +553,18 @@ int mc_thread_create(pthread_t* t, const pthread_attr_t* a, void* (*fn)(void*), 
 /* pthread_create of the CODE UNDER TEST is renamed to this one: a second scheduling point right AFTER the creation, so that the new thread may
    run (to completion) before the creator executes its next statement - e.g. before it reads something the new thread frees as its first
    action.  (The harness mains create their model threads with mc_thread_create: nothing of interest happens between their creations.) */
+static __thread int fail_next_create;
+void mc_fail_next_create(void) { fail_next_create = 1; }
+
 int mc_thread_create_ut(pthread_t* t, const pthread_attr_t* a, void* (*fn)(void*), void* arg) {
-    int rc = mc_thread_create(t, a, fn, arg);
+    int rc;
+    if (fail_next_create) {
+        /* environment answer: the host cannot create another thread.  Still a scheduling point (the other threads may run here). */
+        fail_next_create = 0;
+        mc_yield();
+        return EAGAIN;
+    }
+    rc = mc_thread_create(t, a, fn, arg);
     mc_yield();
     return rc;
 }
